@@ -1923,6 +1923,91 @@ def value_oracle(ctx, rng):
     return nchk[0]
 
 
+
+# ----------------------------------- identical seeds give identical objects
+# A FIXED, always complete family (no sampling): every random generator x
+# distribution x seed form x density (including density*N < 0.5, where the
+# retry / fallback branches run, and 1) x flat and composite dims.  Each is
+# called twice and compared bitwise; between the two calls the GLOBAL NumPy
+# stream and qutip's module-level default generator are re-seeded differently,
+# so any draw that leaks to a global stream shows deterministically.
+def determinism_oracle(ctx):
+    import qutip as q
+    import qutip.random_objects as ro
+    from numpy.random import SeedSequence, default_rng
+    nchk = [0]
+    fam = []
+    dens3 = [0.0005, 0.01, 0.3, 1.0]     # 0.0005: sqrt(d)*N < 0.5 too (rand_dm 'pure' retry branch)
+    flat, comp = 16, [2, 3]
+    for form in (flat, comp):
+        N = int(np.prod(form))
+        ev = list(np.arange(N) - 1.0)
+        pv = list(np.arange(1, N + 1) / np.arange(1, N + 1).sum())
+        for d in dens3:
+            fam += [("rand_herm", "fill", form, d, lambda s, f=form, d=d: q.rand_herm(f, d, "fill", seed=s)),
+                    ("rand_herm", "pos_def", form, d, lambda s, f=form, d=d: q.rand_herm(f, d, "pos_def", seed=s)),
+                    ("rand_herm", "eigen", form, d,
+                     lambda s, f=form, d=d, ev=ev: q.rand_herm(f, d, "eigen", eigenvalues=ev, seed=s)),
+                    ("rand_unitary", "haar", form, d, lambda s, f=form, d=d: q.rand_unitary(f, d, "haar", seed=s)),
+                    ("rand_unitary", "exp", form, d, lambda s, f=form, d=d: q.rand_unitary(f, d, "exp", seed=s)),
+                    ("rand_ket", "haar", form, d, lambda s, f=form, d=d: q.rand_ket(f, d, "haar", seed=s)),
+                    ("rand_ket", "fill", form, d, lambda s, f=form, d=d: q.rand_ket(f, d, "fill", seed=s)),
+                    ("rand_dm", "ginibre", form, d, lambda s, f=form, d=d: q.rand_dm(f, d, "ginibre", seed=s)),
+                    ("rand_dm", "ginibre-rank1", form, d,
+                     lambda s, f=form, d=d: q.rand_dm(f, d, "ginibre", rank=1, seed=s)),
+                    ("rand_dm", "hs", form, d, lambda s, f=form, d=d: q.rand_dm(f, d, "hs", seed=s)),
+                    ("rand_dm", "pure", form, d, lambda s, f=form, d=d: q.rand_dm(f, d, "pure", seed=s)),
+                    ("rand_dm", "eigen", form, d,
+                     lambda s, f=form, d=d, pv=pv: q.rand_dm(f, d, "eigen", eigenvalues=pv, seed=s)),
+                    ("rand_dm", "herm", form, d, lambda s, f=form, d=d: q.rand_dm(f, d, "herm", seed=s)),
+                    ("rand_stochastic", "left", form, d, lambda s, f=form, d=d: q.rand_stochastic(f, d, "left", seed=s)),
+                    ("rand_stochastic", "right", form, d, lambda s, f=form, d=d: q.rand_stochastic(f, d, "right", seed=s))]
+    for form in (3, [2, 2]):
+        fam += [("rand_kraus_map", "", form, None, lambda s, f=form: q.rand_kraus_map(f, seed=s)),
+                ("rand_super", "", form, None, lambda s, f=form: q.rand_super(f, seed=s)),
+                ("rand_super_bcsz", "", form, None, lambda s, f=form: q.rand_super_bcsz(f, seed=s)),
+                ("rand_super_bcsz", "rank1", form, None, lambda s, f=form: q.rand_super_bcsz(f, rank=1, seed=s)),
+                ("rand_super_bcsz", "no-tp", form, None,
+                 lambda s, f=form: q.rand_super_bcsz(f, enforce_tp=False, seed=s))]
+    seedforms = [("int", lambda k: k), ("SeedSequence", lambda k: SeedSequence(k)),
+                 ("Generator", lambda k: default_rng(k))]
+
+    def snapshot(o):
+        obs = o if isinstance(o, list) else [o]
+        return [(x.dims, x.full().tobytes(), x.shape) for x in obs]
+
+    saved_rand = ro._RAND
+    try:
+        for fn, dist, form, d, f in fam:
+            for k, (sname, mk) in enumerate(seedforms):
+                sd = 20200 + 7 * k
+                nchk[0] += 1
+                ctx.count_case(("determinism", fn, dist, str(form), d, sname))
+                res = []
+                for glob in (111, 222):
+                    np.random.seed(glob)
+                    np.random.random(glob % 7)
+                    ro._RAND = default_rng(glob)
+                    r = call_watchdog(lambda: f(mk(sd)), 20)
+                    res.append(r)
+                if res[0][0] == "err" or res[1][0] == "err":
+                    e = res[0] if res[0][0] == "err" else res[1]
+                    ctx.violation("random_objects." + fn, (dist + ":" if dist else "") + "raises " + e[1],
+                                  "%s(%r, density=%r, %s, seed=<%s>) raises %s: %s" % (fn, form, d, dist, sname, e[1], e[2][:100]),
+                                  {"generator": fn, "distribution": dist, "dims": form, "density": d, "seed_form": sname,
+                                   "seed": sd})
+                    continue
+                if snapshot(res[0][1]) != snapshot(res[1][1]):
+                    ctx.violation("random_objects." + fn, (dist + ":" if dist else "") + "same seed gives different object",
+                                  "%s(%r, density=%r, distribution=%r, seed=<%s %d>): two calls with equal seeds differ "
+                                  "(global streams re-seeded differently in between)" % (fn, form, d, dist, sname, sd),
+                                  {"generator": fn, "distribution": dist, "dims": form, "density": d, "seed_form": sname,
+                                   "seed": sd})
+    finally:
+        ro._RAND = saved_rand
+    return nchk[0]
+
+
 # ------------------------------------------------------------------------ run
 
 
@@ -1976,7 +2061,10 @@ def run(ctx):
         "parameters at 0, tiny, huge and mixed zero / non-zero values (enr_thermal_dm, thermal_dm, "
         "displace, squeeze, coherent, spin_coherent, qdiags lists, state builders, rand_* at density "
         "0 and 1) against definition-level references; finiteness, normalisation and positivity "
-        "are direct violations.")
+        "are direct violations.  Determinism family (fixed, complete): every random generator x "
+        "distribution x seed form (int, SeedSequence, Generator) x density (0.01 with N = 16 so that "
+        "density*N < 0.5, 0.3, 1) x flat and composite dims, called twice with the global NumPy "
+        "stream and qutip's default generator re-seeded differently in between, compared bitwise.")
     ctx.cov["trusted_base"] += [
         "Model/C20.v is hand-written from operators.py / states.py / energy_restricted.py / "
         "random_objects.py / the shared front end of data/{dia,csr,dense}.pyx diags; tied by the "
@@ -2121,6 +2209,7 @@ def run(ctx):
     ctx.cov["boundary_checks"] = boundary_oracle(ctx, rng)
     ctx.cov["width_checks"] = width_oracle(ctx, rng)
     ctx.cov["value_checks"] = value_oracle(ctx, rng)
+    ctx.cov["determinism_checks"] = determinism_oracle(ctx)
     ctx.cov["explanation"] = (
         "Theorems (Props/C20.v) hold for every dimension/offset/spin/excitation bound of the "
         "models; models are tied to the source by exact comparison on generated parameters in "
@@ -2162,6 +2251,9 @@ def replay(ctx, payload):
         ob = q.qdiags([0, 0], 1)
         if ob._isherm is False and not np.any(ob.full()):
             ctx.violation(site, payload["signature"], "qdiags([0,0],1) flagged isherm=False", d)
+        return
+    if "same seed gives different object" in str(payload.get("signature")):
+        determinism_oracle(ctx)
         return
     if ":values" in site or site == "energy_restricted.enr_thermal_dm":
         value_oracle(ctx, random.Random(payload.get("seed", 0) * 7919 + 20))
